@@ -362,3 +362,59 @@ Lemma keyed_lstep_f w L r : ledger_keyed L -> ledger_keyed (lstep_f w L r).
 Proof. intros H. unfold lstep_f. destruct (load_skip r w); auto. apply keyed_lstep; auto. Qed.
 Lemma keyed_nil : ledger_keyed [].
 Proof. intros k e H. discriminate. Qed.
+
+(* ------------------------------------------------------------------ sums over extensionally equal maps *)
+Lemma asum_ext {V} (f : V -> nat) (m1 : amap V) : forall m2,
+  awf m1 -> awf m2 -> (forall k, aget m1 k = aget m2 k) -> asum f m1 = asum f m2.
+Proof.
+  induction m1 as [|[k v] t IH]; intros m2 W1 W2 H.
+  - destruct m2 as [|[k2 v2] t2]; [reflexivity|]. specialize (H k2). cbn in H. rewrite N.eqb_refl in H. discriminate.
+  - inversion W1 as [|? ? Wn Wt]; subst.
+    assert (G : aget m2 k = Some v). { rewrite <- H. cbn. rewrite N.eqb_refl. reflexivity. }
+    pose proof (asum_adel f m2 k W2) as A. rewrite G in A. cbn [oget] in A.
+    cbn [asum fold_right snd]. fold (asum f t). rewrite <- A.
+    rewrite (IH (adel m2 k)); [lia|exact Wt|apply awf_adel; exact W2|].
+    intros k'. rewrite aget_adel. destruct (k =? k') eqn:E.
+    + apply N.eqb_eq in E; subst k'. apply aget_none_iff. exact Wn.
+    + rewrite <- H. cbn. rewrite E. reflexivity.
+Qed.
+
+Lemma asum_frame {V} (f : V -> nat) (m1 m2 : amap V) r :
+  awf m1 -> awf m2 -> (forall k, k <> r -> aget m2 k = aget m1 k) ->
+  (asum f m2 + oget f (aget m1 r) = asum f m1 + oget f (aget m2 r))%nat.
+Proof.
+  intros W1 W2 H.
+  pose proof (asum_adel f m1 r W1) as A1. pose proof (asum_adel f m2 r W2) as A2.
+  assert (E : asum f (adel m1 r) = asum f (adel m2 r)).
+  { apply asum_ext; try (apply awf_adel; assumption). intros k. rewrite !aget_adel.
+    destruct (r =? k) eqn:Q; [reflexivity|]. symmetry. apply H. apply N.eqb_neq in Q. congruence. }
+  lia.
+Qed.
+
+Definition kind (k : N) (l : lockrec) : nat := if N.eqb (l_key l) k then 1%nat else O.
+Lemma key_cnt_eq k st : key_cnt k st = asum (kind k) st. Proof. reflexivity. Qed.
+
+Lemma key_cnt_frame k st st' r :
+  awf st -> awf st' -> (forall r', r' <> r -> aget st' r' = aget st r') ->
+  (key_cnt k st' + oget (kind k) (aget st r) = key_cnt k st + oget (kind k) (aget st' r))%nat.
+Proof. intros. rewrite !key_cnt_eq. apply asum_frame; assumption. Qed.
+
+Lemma key_cnt_ext k st st' : awf st -> awf st' -> (forall r, aget st' r = aget st r) -> key_cnt k st' = key_cnt k st.
+Proof. intros W W' H. rewrite !key_cnt_eq. apply asum_ext; auto. Qed.
+
+Lemma key_cnt_pos k st r l : aget st r = Some l -> l_key l = k -> (1 <= key_cnt k st)%nat.
+Proof.
+  intros H Hk. rewrite key_cnt_eq. pose proof (asum_pos (kind k) st r l H) as P.
+  unfold kind in P at 1. rewrite Hk, N.eqb_refl in P. exact P.
+Qed.
+
+Lemma key_cnt_zero k st : (forall r l, aget st r = Some l -> l_key l <> k) -> awf st -> key_cnt k st = O.
+Proof.
+  intros H W. rewrite key_cnt_eq. induction st as [|[r l] t IH]; [reflexivity|].
+  cbn [asum fold_right snd]. fold (asum (kind k) t). inversion W as [|? ? Wn Wt]; subst.
+  rewrite IH; auto.
+  - unfold kind. destruct (l_key l =? k) eqn:E; [|reflexivity]. apply N.eqb_eq in E. exfalso.
+    apply (H r l); [cbn; rewrite N.eqb_refl; reflexivity|exact E].
+  - intros r' l' H'. apply (H r' l'). cbn. destruct (r =? r') eqn:E; [|exact H'].
+    apply N.eqb_eq in E; subst r'. exfalso. apply Wn. apply aget_in in H'. change r with (fst (r, l')). apply in_map. exact H'.
+Qed.
